@@ -119,7 +119,8 @@ def error_sig(w, lf):
 
 
 def role_sig(w, lf):
-    """Which role functions the logical function calls (directly), and with which parameter positions."""
+    """Which role functions and which ssri primitives the operation uses, transitively over the crate-local call graph
+    (so that extracting a private helper does not change the signature)."""
     prog = w.prog
     R = w.roles
     out = set()
@@ -136,18 +137,13 @@ def role_sig(w, lf):
         roles[p] = "CONTENT_CLOSE"
     for p in R.hash_fns:
         roles[p] = "HASH:" + R.hash_fns[p]
-    for b, blk, t, g in prog.local_calls(lf):
-        r = roles.get(g.path)
-        if r is None:
-            continue
-        args = []
-        for a in t.args:
-            pi = param_indices(prog, prog.resolve_op(b, a, IDENT, blk.i), lf)
-            args.append(tuple(sorted(pi)) if pi else None)
-        out.add((r, tuple(args)))
-    for b, blk, t in prog.call_sites(lf):
-        if t.callee is not None and t.callee.path.startswith("ssri::"):
-            out.add(("SSRI", t.callee.path))
+    for f in w.reach_fns(lf):
+        r = roles.get(f.path)
+        if r is not None and f is not lf:
+            out.add(("ROLE", r))
+        for b, blk, t in prog.call_sites(f):
+            if t.callee is not None and t.callee.path.startswith("ssri::"):
+                out.add(("SSRI", t.callee.path))
     return out
 
 
